@@ -23,6 +23,7 @@ import Proofs.LinksDemo
 import Proofs.LinksStore
 import Proofs.LinksTwoPC
 import Proofs.LinksUndo
+import Proofs.LinksRules
 import Proofs.FileStoreRefine
 import Proofs.FileStoreRefine2
 import Proofs.FileStoreTid
@@ -594,6 +595,32 @@ theorem undo_verdict_states_are_history_loads (T : Undo.Txn) (older L : Undo.Log
     Undo.dataOf (Undo.flat older) oid = histData (absU older) oid :=
   ⟨dataOf_absU (T :: older) oid, dataOf_absU (⟨utid, false, S⟩ :: L) oid, dataOf_absU older oid⟩
 
+/-- C06 ↔ C04, the `prev` chain: on every log satisfying C06's invariant `Undo.Inv` without packed
+    transactions, `loadBefore` and `loadSerial` of the undo model (index, then `prev` pointers on
+    ordinals, then back pointers) are `History.loadBefore` / `History.loadSerial` on the abstracted
+    log — data, serial, end tid, `None` and KeyError alike.  Packed transactions are excluded
+    because pack writes `prev = 0` into the records it copies (`Undo.RecOK`); corner:
+    `ex_undo_packed_prev_corner`. -/
+theorem undo_walks_are_history_queries (L : Undo.Log) (h : Undo.Inv L)
+    (hp : ∀ t ∈ L, t.packed = false) (oid : Nat) :
+    (∀ b, History.loadBefore (absU L) oid b = lbU (Undo.loadBefore (Undo.flat L) oid b)) ∧
+    (∀ s, History.loadSerial (absU L) oid s =
+      (match Undo.loadSerial (Undo.flat L) oid s with
+       | some d => .ok d
+       | none => .error .keyError)) :=
+  ⟨fun b => loadBefore_absU (chainInv_of_inv h hp) oid b,
+   fun s => loadSerial_absU (chainInv_of_inv h hp) oid s⟩
+
+def exPacked : Undo.Log := [⟨2, true, [⟨1, 2, 0, .data [9]⟩]⟩, ⟨1, true, [⟨1, 1, 0, .data [7]⟩]⟩]
+/-- corner: two revisions of one object inside the packed region (pack keeps an old revision when
+    a later undo record points back to it) carry `prev = 0`; the `prev` walk of `loadBefore` then
+    ends early with `None`, while the list specification (and the iterator) still shows revision 1.
+    C04's `LogInv` (prev = index entry for EVERY record) does not cover such files either. -/
+theorem ex_undo_packed_prev_corner :
+    Undo.invB exPacked = true ∧ Undo.loadBefore (Undo.flat exPacked) 1 2 = .noRev ∧
+    History.loadBefore (absU exPacked) 1 2 = .ok (some ([7], 1, some 2)) ∧
+    Undo.dataOf (Undo.flat exPacked) 1 = some [9] ∧ histData (absU exPacked) 1 = some [9] := by decide
+
 def exU : Undo.Log :=
   [⟨3, false, [⟨1, 3, 2, .back 1⟩, ⟨2, 3, 0, .data [5]⟩]⟩, ⟨2, false, [⟨1, 2, 1, .data [9]⟩]⟩,
    ⟨1, false, [⟨1, 1, 0, .data [7]⟩]⟩]
@@ -601,5 +628,53 @@ example : Undo.invB exU = true ∧ Undo.dataOf (Undo.flat exU) 1 = some [7] ∧
     absU exU = [⟨1, 32, [], [], [], [⟨1, some [7], none⟩]⟩, ⟨2, 32, [], [], [], [⟨1, some [9], none⟩]⟩,
       ⟨3, 32, [], [], [], [⟨2, some [5], none⟩, ⟨1, some [7], some 1⟩]⟩] ∧
     History.load (absU exU) 1 = .ok ([7], 3) := by decide
+example : Undo.loadBefore (Undo.flat exU) 1 3 = .found [9] 2 (some 3) ∧
+    History.loadBefore (absU exU) 1 3 = .ok (some ([9], 2, some 3)) ∧
+    Undo.loadSerial (Undo.flat exU) 1 3 = some [7] ∧ History.loadSerial (absU exU) 1 3 = .ok [7] := by decide
+
+/-! ## §8  The committed history of the store-rule machine (C03 / C10) = `History` (C04)
+
+`absS enc : StoreRules.Hist → History`: commit order, records in store order, each stored record
+encoded by `enc` (any function), un-creation records without data. -/
+
+/-- C03/C10 ↔ C04: on a history with increasing tids (what the machine reaches:
+    `Proofs.StoreRules` keeps `Sorted`), the queries the store rules consult are `History`
+    queries on the abstracted history: the committed tid both simple storages compare with
+    (`curS`: FileStorage's index / MappingStorage's `maxKey()`) is the tid of the newest revision
+    — `History.getTid`, KeyError for an un-creation — and `loadSerial` of either storage kind
+    (`loadSerialFile`: the `prev` walk with early stop; `loadSerialMapping`: the per-tid lookup)
+    is `History.loadSerial`. -/
+theorem storerules_queries_are_history_queries (enc : Resolve.Record → Bytes) (h : StoreRules.Hist)
+    (hs : StoreRules.Sorted h) (o : Nat) :
+    History.WF (absS enc h) ∧
+    (∀ k, StoreRules.curS k h o = StoreRules.currentTid h o) ∧
+    History.getTid (absS enc h) o =
+      (match StoreRules.currentTid h o with
+       | some t => if StoreRules.currentDeleted h o then .error .keyError else .ok t
+       | none => .error .keyError) ∧
+    (∀ k ser, History.loadSerial (absS enc h) o ser = okS enc (StoreRules.loadSerialS k h o ser)) := by
+  refine ⟨absS_wf enc hs, fun k => Proofs.StoreRules.curS_eq hs o, getTid_absS enc h o, fun k ser => ?_⟩
+  cases k with
+  | file => exact loadSerial_absS_file enc hs o ser
+  | mapping => exact loadSerial_absS_mapping enc hs o ser
+
+def exRec (n : Nat) : Resolve.Record := { hdr := { cls := 1, args := 0 }, state := .atom n }
+def exEnc (r : Resolve.Record) : Bytes := match r.state with | .atom n => [n] | _ => []
+def exRules : StoreRules.Hist :=
+  [⟨30, [⟨7, 20, exRec 0, exRec 0, false, true⟩], []⟩,
+   ⟨20, [⟨7, 10, exRec 5, exRec 5, false, false⟩, ⟨8, 0, exRec 6, exRec 6, false, false⟩], []⟩,
+   ⟨10, [⟨7, 0, exRec 4, exRec 4, false, false⟩], []⟩]
+example : StoreRules.Sorted exRules := by unfold StoreRules.Sorted; decide
+example : absS exEnc exRules =
+    [⟨10, 32, [], [], [], [⟨7, some [4], none⟩]⟩,
+     ⟨20, 32, [], [], [], [⟨8, some [6], none⟩, ⟨7, some [5], none⟩]⟩,
+     ⟨30, 32, [], [], [], [⟨7, none, none⟩]⟩] ∧
+    StoreRules.loadSerialFile exRules 7 20 = some (exRec 5) ∧
+    History.loadSerial (absS exEnc exRules) 7 20 = .ok [5] ∧
+    StoreRules.loadSerialMapping exRules 7 30 = none ∧
+    History.loadSerial (absS exEnc exRules) 7 30 = .error .keyError ∧
+    StoreRules.currentTid exRules 7 = some 30 ∧ StoreRules.currentDeleted exRules 7 = true ∧
+    History.getTid (absS exEnc exRules) 7 = .error .keyError ∧
+    History.getTid (absS exEnc exRules) 8 = .ok 20 := by decide
 
 end Props.Links
